@@ -447,6 +447,9 @@ func RunOne(c Cfg, sched []Step, limit time.Duration) (*Run, []Event, error) {
 			return r, nil, err
 		}
 	}
+	if cls := elv.ErrClass(evalErr); cls == "parse" || cls == "compile" {
+		return r, nil, fmt.Errorf("generated program %q does not %s: %v", Program(c), cls, evalErr)
+	}
 	vs, _ := collect()
 	out := []int{}
 	for _, v := range vs {
